@@ -236,3 +236,11 @@ def run(ctx):
     for inst in ctx.rules[-1].instances:
         inst["rule"] = "C02-R7"
         inst["key"] = inst["key"].replace("C01-R3b|", "C02-R7|", 1)
+    # shared with C07-R5: merged events are replayed into the vault only when the log
+    # accepted the patch — otherwise the served folder is ahead of its own log
+    from . import c07
+    c07.r5_replay_after_accept(ctx)
+    ctx.rules[-1].id = "C02-R8"
+    for inst in ctx.rules[-1].instances:
+        inst["rule"] = "C02-R8"
+        inst["key"] = inst["key"].replace("C07-R5|", "C02-R8|", 1)
